@@ -103,6 +103,49 @@ pub fn check_samples<R: std::io::Read + std::io::Seek>(
             }
         }
     }
+    if !f.is_empty() {
+        return f;
+    }
+    // The statement is about "reading sample k", whatever was looked up before: the same
+    // questions again on the same reader, backwards per track, then in a pseudo-random order
+    // that interleaves the tracks (offset, size, timing and a probe of the bytes).
+    let mut order: Vec<(usize, u32)> = Vec::new();
+    for (ti, exp) in expect.iter().enumerate() {
+        let n = exp.len().min(3000);
+        for k in (0..n).rev() {
+            order.push((ti, k as u32 + 1));
+        }
+    }
+    let mut shuffled: Vec<(usize, u32)> = order.iter().cloned().filter(|(_, s)| *s <= 400).collect();
+    let mut x = 0x9E37_79B9_7F4A_7C15u64 ^ (shuffled.len() as u64).wrapping_mul(0xD6E8_FEB8_6659_FD93);
+    for i in (1..shuffled.len()).rev() {
+        x ^= x << 13;
+        x ^= x >> 7;
+        x ^= x << 17;
+        shuffled.swap(i, (x % (i as u64 + 1)) as usize);
+    }
+    order.extend(shuffled);
+    for (ti, sid) in order {
+        let tid = ids[ti];
+        let e = &expect[ti][sid as usize - 1];
+        match panicmon::catch(|| mp4.sample_offset(tid, sid)) {
+            Ok(Ok(o)) if o == e.offset => {}
+            other => push(&mut f, "sample_offset_in_another_order", json!({"track": tid, "sample": sid, "want": e.offset, "got": format!("{:?}", other.map(|r| r.map_err(|x| x.to_string())).map_err(|p| p.msg))})),
+        }
+        match panicmon::catch(|| mp4.read_sample(tid, sid)) {
+            Ok(Ok(Some(s))) => {
+                let want = expected_bytes(e);
+                if s.bytes.as_ref() != &want[..] || s.start_time != e.start || s.duration != e.delta || s.rendering_offset != e.cts || (opts.compare_sync && s.is_sync != e.sync) {
+                    push(&mut f, "sample_in_another_order", json!({"track": tid, "sample": sid, "got": {"len": s.bytes.len(), "start": s.start_time, "dur": s.duration, "cts": s.rendering_offset, "sync": s.is_sync},
+                        "want": {"len": want.len(), "start": e.start, "dur": e.delta, "cts": e.cts, "sync": e.sync, "offset": e.offset}, "bytes_equal": s.bytes.as_ref() == &want[..]}));
+                }
+            }
+            other => push(&mut f, "sample_in_another_order", json!({"track": tid, "sample": sid, "got": format!("{:?}", other.map(|r| r.map(|o| o.map(|s| s.bytes.len())).map_err(|x| x.to_string())).map_err(|p| p.msg))})),
+        }
+        if f.len() >= 8 {
+            return f;
+        }
+    }
     f
 }
 
